@@ -19,8 +19,7 @@ def gen_cases(chk):
 
 
 def judge(chk, c, impl, model, facts, replay=False):
-    ds = impl["decisions"]
-    for k, d in enumerate(ds):
+    for tag, d in enggen.warm_decisions(impl):
         if isinstance(d, list):
             continue  # raising is C06's business
         if (d["allowed"] is True) != (d["effect"] == "permit") or d["effect"] not in ("permit", "deny") \
@@ -38,7 +37,7 @@ def judge(chk, c, impl, model, facts, replay=False):
                         break
             if not ok:
                 chk.violation("allowed=True but no applicable permit rule with these obligations satisfied "
-                              "(c01_no_spurious_permit)%s" % (" [cache hit]" if k else ""), c, impl=d,
+                              "(c01_no_spurious_permit)%s" % tag, c, impl=d,
                               model={"facts": facts, "model_decision": model})
                 return False
     return True
@@ -64,11 +63,11 @@ def check_cases(chk, cases, replay=False):
             continue
         if not judge(chk, c, i, m, f):
             continue
-        for k, d in enumerate(i["decisions"]):
+        for tag, d in enggen.warm_decisions(i):
             dm = m if isinstance(m, dict) else ["Raise"]
             dd = d if isinstance(d, dict) else ["Raise"]
             if dd != dm:
-                chk.corr_break("Decision differs from the model Engine.guard_eval%s" % (" on a cache hit" if k else ""),
+                chk.corr_break("Decision differs from the model Engine.guard_eval%s" % tag,
                                c, impl=d, model=m, theorems=["c01_no_spurious_permit", "c01_nothing_applies_denies"])
                 break
 
